@@ -393,6 +393,62 @@ func FaultJobs(rng *rand.Rand, thorough bool) []FaultJob {
 			[]SOp{{Op: "expectws", R: "r1"}, {Op: "expectws", R: "r2"}, {Op: "doneaserr", R: "r1", X: 8}, {Op: "errasdone", R: "r2"}, {Op: "done", R: "r1", X: 1}, {Op: "expectdone"}}), "f-typeflip-err"),
 			Transport: t, ChunkSeed: rng.Int63(), WriteFailAfter: -1, TimeoutMs: 1500}, "c08-typeflip"})
 	}
+	// "slow signal consumer": the server emits a signal for a pending run while the caller does not
+	// pick signals up (the read loop is parked in its send to signalsFromStep); meanwhile the stream
+	// ends / fails / turns to garbage, or the result arrives, or Close is called, or - the one case
+	// in which ANOTHER goroutine closes that channel - the run's own work-start write is reported as
+	// failed (after its bytes reached the server) and Execute cleans up. Then the consumer is released.
+	// Ordering is through the pipes and director-controlled pauses only: the director waits until
+	// the server's write of the signal has completed, pauses 60 ms (the read loop is in the send by
+	// then), lets the event happen, pauses again, opens the consumer's gate.
+	{
+		type variant struct {
+			name  string
+			after []SOp // server, after the signal
+			dir   []DOp // director, between the two pauses
+			fault func(bounds []int) *Fault
+			wfail bool
+		}
+		vs := []variant{
+			{name: "eof", after: []SOp{{Op: "eof"}}},
+			{name: "ioerr", after: []SOp{{Op: "done", R: "r1", X: 1}}, fault: func(b []int) *Fault { return &Fault{Kind: "ioerr", Off: b[1] + 3} }},
+			{name: "garbage", after: []SOp{{Op: "garbage"}}},
+			{name: "done", after: []SOp{{Op: "done", R: "r1", X: 1}}},
+			{name: "close", after: []SOp{{Op: "expectdone"}, {Op: "done", R: "r1", X: 1}}, dir: []DOp{{Op: "aclose"}}},
+			{name: "wfail", after: []SOp{{Op: "expectmarklong", N: 1}}, dir: []DOp{{Op: "open", R: "write"}}, wfail: true},
+		}
+		for _, v := range vs {
+			d := []DOp{{Op: "exec", R: "r1", From: true, Hold: true}, {Op: "awaitwritten", N: 2}, {Op: "sleep", N: 60}}
+			d = append(d, v.dir...)
+			d = append(d, DOp{Op: "sleep", N: 60}, DOp{Op: "open", R: "consumer:r1"}, DOp{Op: "join", R: "r1"})
+			if v.name == "close" {
+				d = append(d, DOp{Op: "jclose"})
+			} else {
+				d = append(d, DOp{Op: "close"})
+			}
+			d = append(d, DOp{Op: "mark", N: 1})
+			sv := append([]SOp{{Op: "expectws", R: "r1"}, {Op: "sig", R: "r1"}}, v.after...)
+			ss := unhealthy(hs("", 3, d, sv), "f-sigslow-"+v.name)
+			_, bounds := Transcript(ss)
+			reps := 1
+			if v.wfail {
+				reps = 3
+			}
+			for rep := 0; rep < reps; rep++ {
+				for _, t := range []string{"pipe", "buf"} {
+					j := Job{Session: ss, Transport: t, ChunkSeed: rng.Int63(), WriteFailAfter: -1, TimeoutMs: 2000}
+					if v.fault != nil {
+						j.Fault = v.fault(bounds)
+					}
+					if v.wfail {
+						j.WriteFailAfter = 1 // the start-output message gets through, the work-start is the late failure
+						j.WriteFailDeliver = true
+					}
+					out = append(out, FaultJob{j, "c08-sigslow"})
+				}
+			}
+		}
+	}
 	// the write side fails while the peer stays silent and keeps its output open until Close is over
 	silent := Session{Name: "f-wfail-silent", Ver: 3,
 		Dir: []DOp{{Op: "rs"}, {Op: "exec", R: "r1"}, {Op: "join", R: "r1"}, {Op: "close"}, {Op: "mark", N: 1}},
